@@ -105,12 +105,24 @@ fn space_before_comment(cst: &Cst<'_>, span: &Span, items: &mut PrintItems, glob
             b' ' | b'\t' | b'\r' => {}
             b'\n' => {
                 if !global {
-                    items.push_signal(Signal::NewLine);
+                    // the printer may already have broken the line (after a colon or bracket)
+                    items.push_condition(conditions::if_true(
+                        "newLineBeforeComment",
+                        condition_resolvers::is_not_start_of_line(),
+                        Signal::NewLine.into(),
+                    ));
                 }
                 return;
             }
             _ => {
-                items.push_space();
+                // no blank at the start of a line the printer has broken in front of the comment
+                let mut space = PrintItems::new();
+                space.push_space();
+                items.push_condition(conditions::if_true(
+                    "spaceBeforeComment",
+                    condition_resolvers::is_not_start_of_line(),
+                    space,
+                ));
                 return;
             }
         }
